@@ -150,6 +150,9 @@ theorem C07_read_image_canonical (text : String) (c : Image) (h : IHex.read text
 theorem C07_file_stable (text : String) (c : Image) (h : IHex.read text = some c) (hb : ∀ s ∈ c, s.1 + s.2.length ≤ 2 ^ 32) :
     IHex.read (IHex.writeImageText c) = some c := IHex.read_stable text c h hb
 
+/-- what the reader returns for a domain's file is its own canonical form, so the slot predicates (which look at `canon img`) look at the image itself -/
+theorem C07_read_image_fixed (text : String) (c : Image) (h : IHex.read text = some c) : IHex.canon c = some c := IHex.read_canon text c h
+
 /-- a concrete file of two slots in one domain, the second beyond a 64 KiB border (kernel evaluation; hypotheses of the theorem met) -/
 example : IHex.read (IHex.writeImageText [(0x0E1EFFF0, (List.range 40).map UInt8.ofNat), (0x0E1F0400, [1, 2, 3])])
     = some [(0x0E1EFFF0, (List.range 40).map UInt8.ofNat), (0x0E1F0400, [1, 2, 3])] := by decide +kernel
